@@ -48,6 +48,7 @@ type Cfg struct {
 	Delay    bool   `json:"delay"`    // WithRenderDelay
 	OutFault int    `json:"outfault"` // k-th output Write fails (0 = never)
 	Ctx      bool   `json:"ctx"`      // NewWithContext with a harness-owned cancel
+	AutoToo  bool   `json:"autotoo"`  // WithAutoRefresh() given together with WithManualRefresh (manual wins, as documented)
 }
 
 type Sched struct {
